@@ -184,3 +184,10 @@ func (h *vDB) close() {
 }
 
 func (h *vDB) tables() int { return len(h.db.sstableManager.allSSTableReaders) }
+
+// runPendingNative: natively wait until the real flusher goroutine is idle (no-op under the symbolic engine).
+func (h *vDB) runPendingNative() {
+	if !vrt.Symbolic() {
+		vrt.WaitGoroutineIdle("simpledb.flushMemstoreContinuously")
+	}
+}
